@@ -50,6 +50,11 @@ pub struct MirrorCase {
     /// node their restrictions create is streamed like any other
     #[serde(default)]
     pub semantics_tail: Option<Vec<usize>>,
+    /// large backlog: before its operations the producer creates this many further variables
+    /// (one node = one message each, numbered after the ordinary ones), and the polling stores
+    /// start only when the producer is done — a single poll then meets the whole stream
+    #[serde(default)]
+    pub backlog: Option<usize>,
 }
 
 pub struct Mirror {
@@ -153,6 +158,7 @@ struct ProducerOut {
     lens: Vec<usize>,
     final_nodes: Vec<BddNode>,
     append_only_broken: Option<String>,
+    self_poll_issue: Option<String>,
 }
 
 fn target_term(t: u64) -> Term {
@@ -220,6 +226,28 @@ impl Scenario for Mirror {
         } else {
             None
         };
+        let backlog = if self.property == "C19" && rng.chance(1, 2500) {
+            Some(*rng.pick(&[130usize, 300, 1030, 1100, 2100, 4200]))
+        } else {
+            None
+        };
+        let (mut relay, mut recv, mut cap1, mut cap2) = (relay, recv, cap1, cap2);
+        if let Some(n) = backlog {
+            // the pollers wait for the producer: a bounded channel would (rightly) block it for good
+            cap1 = None;
+            cap2 = None;
+            let far = |rng: &mut Rng, polls: &mut Vec<u64>| {
+                for t in polls.iter_mut() {
+                    if rng.chance(1, 2) {
+                        *t = rng.range(2, n as u64 + 8);
+                    }
+                }
+            };
+            far(rng, &mut recv);
+            if let Some(r) = relay.as_mut() {
+                far(rng, r);
+            }
+        }
         MirrorCase {
             nvars,
             ops,
@@ -230,6 +258,7 @@ impl Scenario for Mirror {
             cap1,
             cap2,
             semantics_tail,
+            backlog,
         }
     }
 
@@ -242,6 +271,13 @@ impl Scenario for Mirror {
         // reference execution: same operations on a store without any channel
         let mut ref_bdd = Bdd::new();
         let mut ref_res = vec![Term::BOT, Term::TOP];
+        let backlog = case.backlog.unwrap_or(0);
+        for i in 0..backlog {
+            ref_bdd.variable(Var(nvars + i));
+        }
+        if backlog > 0 {
+            stats.inc("runs_with_large_backlog");
+        }
         for op in &case.ops {
             let t = apply(&mut ref_bdd, &ref_res, op, nvars);
             ref_res.push(t);
@@ -272,6 +308,9 @@ impl Scenario for Mirror {
         let prod_done = AtomicBool::new(false);
         let relay_done = AtomicBool::new(false);
 
+        // start latch of the polling stores (backlog mode): closed when the producer is done
+        let (latch_s, latch_r) = crossbeam_channel::bounded::<()>(1);
+        let latch_r = if backlog > 0 { Some(latch_r) } else { None };
         let rebuild_check = self.property == "C06";
         let rebuild_issue: Mutex<Option<String>> = Mutex::new(None);
         let mut bodies: Vec<Box<dyn FnOnce() + Send + '_>> = Vec::new();
@@ -289,8 +328,12 @@ impl Scenario for Mirror {
                     }
                 }
                 let _d = Done(prod_done);
+                let _latch = latch_s; // dropped (= latch opened) after the store below
                 let mut bdd = Bdd::with_sender(s1);
                 let mut res = vec![Term::BOT, Term::TOP];
+                for i in 0..backlog {
+                    bdd.variable(Var(nvars + i));
+                }
                 let mut prev = bdd.nodes.clone();
                 for op in ops {
                     let t = apply(&mut bdd, &res, op, nvars);
@@ -311,7 +354,17 @@ impl Scenario for Mirror {
                         prod_out.lock().unwrap().append_only_broken = Some("during the semantics tail".into());
                     }
                 }
+                // a store without a receiving end still answers polls from its own table
+                let len = bdd.nodes.len();
+                let mut self_poll_issue = None;
+                for t in [0usize, 1, len / 2, len - 1, len, len + 3, usize::MAX] {
+                    let found = bdd.recv(Term(t));
+                    if found != (t < len) && self_poll_issue.is_none() {
+                        self_poll_issue = Some(format!("producer store (no receiving end, {len} nodes): recv(Term({})) answered {found}", t as i64));
+                    }
+                }
                 let mut o = prod_out.lock().unwrap();
+                o.self_poll_issue = self_poll_issue;
                 o.results = res;
                 o.tail = tail_out;
                 o.final_nodes = bdd.nodes.clone();
@@ -329,8 +382,12 @@ impl Scenario for Mirror {
             my_done: &'a AtomicBool,
             rebuild_check: bool,
             rebuild_issue: &'a Mutex<Option<String>>,
+            latch: Option<crossbeam_channel::Receiver<()>>,
         ) -> Box<dyn FnOnce() + Send + 'a> {
             Box::new(move || {
+                if let Some(l) = latch {
+                    let _ = l.recv(); // returns once the producer has dropped its end
+                }
                 struct Done<'a>(&'a AtomicBool);
                 impl Drop for Done<'_> {
                     fn drop(&mut self) {
@@ -404,6 +461,7 @@ impl Scenario for Mirror {
                 &relay_done,
                 rebuild_check,
                 &rebuild_issue,
+                latch_r.clone(),
             ));
             let recv_bdd = Bdd::with_receiver(r2);
             bodies.push(poller(
@@ -416,6 +474,7 @@ impl Scenario for Mirror {
                 &dummy_done,
                 rebuild_check,
                 &rebuild_issue,
+                latch_r.clone(),
             ));
         } else {
             drop(s2);
@@ -431,6 +490,7 @@ impl Scenario for Mirror {
                 &dummy_done,
                 rebuild_check,
                 &rebuild_issue,
+                latch_r.clone(),
             ));
         }
 
@@ -511,6 +571,9 @@ impl Scenario for Mirror {
         if c19 {
             if let Some(m) = &prod.append_only_broken {
                 return mk(self.viol("producer", "table-not-append-only", m.clone()), stats);
+            }
+            if let Some(m) = &prod.self_poll_issue {
+                return mk(self.viol("found-flag", "store-without-receiver", m.clone()), stats);
             }
             // producer unaffected by streaming / peer drop: identical to the channel-less twin
             if prod.results != ref_res || *final_nodes != ref_bdd.nodes || prod.tail != ref_tail {
@@ -612,6 +675,11 @@ impl Scenario for Mirror {
         if c.semantics_tail.is_some() {
             let mut d = c.clone();
             d.semantics_tail = None;
+            out.push(d);
+        }
+        if let Some(b) = c.backlog {
+            let mut d = c.clone();
+            d.backlog = if b > 8 { Some(b / 2) } else { None };
             out.push(d);
         }
         if c.drop_recv_after.is_some() {
